@@ -192,6 +192,11 @@ def check_outcome(ctx, base, up, before, after, audit_events, req, status, cfg, 
     # authorised?
     authorised = True
     why = None
+    if cfg["tokens"] and req is not None and req.token == "" and "" in cfg["tokens"]:
+        # an explicitly empty token against a token list that holds the empty string: whether that is "valid" is not
+        # for this check to say
+        ctx.undecided("empty-token-against-configured-empty-token")
+        return
     if cfg["tokens"] and (req is None or req.token not in cfg["tokens"]):
         authorised, why = False, "token"
     elif req is not None and req.size > cfg["max_size"]:
@@ -604,6 +609,9 @@ def run(ctx):
         {"tokens": None, "max_size": 0, "types": None, "delete": True},
         {"tokens": {"good"}, "max_size": 0, "types": None, "delete": False, "via_config": True},
         {"tokens": None, "max_size": 1, "types": None, "delete": True},
+        # a token list that holds the empty string (an unset placeholder): a request WITHOUT a token is still without one
+        {"tokens": {"", "good"}, "max_size": LIMIT, "types": None, "delete": True},
+        {"tokens": {""}, "max_size": LIMIT, "types": None, "delete": True, "via_config": True},
     ]
     k = 0
     # ---- un-faulted request space
